@@ -271,6 +271,10 @@ def rotation_pytree_containers(case):
       'none_entries': {'a': None, 'b': a(3), 'c': Pair(None, a(2, 5))},
       'tuple_of_scalars': (a(), a(), {'k': (a(3),)}),
   }
+  tied, bias = a(3, 2), a(5)
+  # the SAME array object at several positions (tied parameters): every position is rotated with its own key
+  trees['tied'] = {'decoder': {'w': tied}, 'encoder': {'w': tied}, 'out': {'b': bias}}
+  trees['tied_list'] = [bias, tied, bias]
   tree = trees[case['tree']]
   leaves = jax.tree_util.tree_leaves(tree)
   evals = 0
@@ -281,6 +285,11 @@ def rotation_pytree_containers(case):
       rot, shapes = wh.structured_rotation_pytree(tree, key)
       require(jax.tree_util.tree_structure(rot) == jax.tree_util.tree_structure(tree), 'tree structure changed by the rotation',
               case=nc)
+      # every position carries the rotation made with ITS split key
+      for l, r, kk in zip(leaves, jax.tree_util.tree_leaves(rot), jax.random.split(key, len(leaves)) if leaves else []):
+        want_r, _ = wh.structured_rotation(l, kk)
+        require(bool(np.allclose(np.asarray(r), np.asarray(want_r), atol=1e-6)), 'a leaf is not rotated with the key of its own '
+                'position', np.asarray(want_r).tolist(), np.asarray(r).tolist(), case=nc)
       back = wh.inverse_structured_rotation_pytree(rot, key, shapes)
       require(jax.tree_util.tree_structure(back) == jax.tree_util.tree_structure(tree), 'tree structure not restored by the '
               'inverse rotation', str(jax.tree_util.tree_structure(tree)), str(jax.tree_util.tree_structure(back)), case=nc)
@@ -325,7 +334,7 @@ def plan(ctx):
                         for sh in ([(), (2,), (3,), (5,), (8,), (2, 3), (17,)] if th else [(3,), (5,), (2, 3), (8,)])], chunk=2)
   ctx.pmap('rotation_pytree_containers', [{'tree': t, 'keys': [0, 1] if not th else list(range(6)), 'keyenv': ke}
                                           for t in ('empty_tuple_first', 'empty_namedtuple', 'empty_list_dict', 'between',
-                                                    'empty_tail', 'none_entries', 'tuple_of_scalars')
+                                                    'empty_tail', 'none_entries', 'tuple_of_scalars', 'tied', 'tied_list')
                                           for ke in ('default', 'legacy_layout')], chunk=2)
   ctx.pmap('rotation_pytree_sequence', [{'seq': q, 'keys': [0, 1, 2] if not th else list(range(8))}
                                         for q in ('same_structure', 'bare_arrays', 'lists', 'pad_collisions')], chunk=1)
